@@ -128,4 +128,22 @@ def stepEstimator (s : KState) : Outcome → KState
 def transformLoop (outcomes : List Outcome) : KState :=
   outcomes.foldl stepEstimator (initState outcomes.length)
 
+/-! ## one target end to end (`_krige`) and a whole `transform` call
+
+`row` = distances target → observations, `g0row` = fitted semivariances target → observations,
+`G i j` = fitted semivariance between observations `i` and `j`, `v` = observed values. -/
+
+def krigeOne (maxDist : Rat) (minP maxP : Nat) (G : Nat → Nat → Rat) (v : List Rat)
+    (t : List Rat × List Rat) : Outcome :=
+  let idx := findClosestDense t.1 maxDist maxP
+  if idx.length < minP then .lessPoints else
+  match krigeSolve idx.length (fun a b => G (idx.getD a 0) (idx.getD b 0))
+      (fun a => t.2.getD (idx.getD a 0) 0) (idx.map fun i => v.getD i 0) with
+  | none => .singular
+  | some r => .ok r.estimate r.variance
+
+def krigeTransform (maxDist : Rat) (minP maxP : Nat) (G : Nat → Nat → Rat) (v : List Rat)
+    (targets : List (List Rat × List Rat)) : KState :=
+  transformLoop (targets.map (krigeOne maxDist minP maxP G v))
+
 end Skg
